@@ -1,4 +1,5 @@
 import ZapVerif.Proofs.Zio
+import ZapVerif.Proofs.TransZio
 /-! # C17 — zapio.Writer logs exactly the lines of the byte stream, however it is chunked
 
 Property theorems only; helper lemmas live in `Proofs/Zio.lean`, the model in `Model/Zio.lean`. -/
@@ -74,5 +75,155 @@ theorem disabled_logs_nothing_and_keeps_state (b : Bytes) (s : Step) :
 example : (session [.write [97, 10, 10], .write [98], .sync, .write [99, 10]]).1 = [[97], [], [98], [99]] := by
   decide
 example : allEnabled [.write [97, 10, 10], .write [98], .sync, .write [99, 10]] = true := by decide
+
+end ZapVerif.C17
+
+/-! ## the model's writer IS the source (Go→GoMini translation, docs/TRANSLATOR.md)
+
+`Gen/TransZio.lean` holds the bodies of `Writer.Write`, `writeLine`, `flush` and `Sync` as read from zapio/writer.go on
+this run.  For every buffer content, every chunk (any length < 2^63, any number of newlines) and either answer of the
+level check, the interpreted functions do exactly what `Zio.step` says: same new buffer, same messages in the same
+order, `(len(bs), nil)`; the slice expressions `line[:idx]`, `line[idx+1:]` cannot panic. -/
+namespace ZapVerif.C17
+set_option linter.unusedSimpArgs false
+open ZapVerif ZapVerif.Zio ZapVerif.GoMini ZapVerif.TransZio ZapVerif.Gen.TransZio
+
+/-- `w.log(b)` on the message trace -/
+def logged (en : Bool) (out : List Val) (b : Bytes) : List Val := if en then out ++ [.bytes b] else out
+
+/-- body of `flush(allowEmpty)`: log the buffer if allowed or non-empty, then reset it -/
+theorem flush_exec_matches_source (en allow : Bool) (buff : Bytes) (lvl : Int) (out : List Val) (fuel : Nat) :
+    (exec (X en) (fuel + 1) flush_body ⟨[("p0", .bool allow)], zfld buff lvl out⟩).fin =
+      some ([], zfld [] lvl (if allow ∨ buff ≠ [] then logged en out buff else out)) := by
+  rw [exec_succ]
+  cases allow <;> cases buff <;> simp [flush_body, logged]
+
+/-- body of `writeLine(line)` ≡ `TransZio.wl`: no newline ⇒ everything is buffered and nothing remains; otherwise
+    the part before the first newline is logged (alone on the fast path, after the buffered bytes otherwise), the
+    buffer ends empty, and the bytes after the newline remain.  `line[:idx]` and `line[idx+1:]` are in bounds. -/
+theorem writeLine_exec_matches_source (en : Bool) (buff line : Bytes) (lvl : Int) (out : List Val) (fuel : Nat)
+    (hl : (line.length : Int) < 9223372036854775808) :
+    (exec (X en) (fuel + 2) writeLine_body ⟨[("p0", .bytes line), ("r0", .bytes [])], zfld buff lvl out⟩).fin =
+      some ([.bytes (wl buff line).2.2], zfld (wl buff line).1 lvl ((wl buff line).2.1.foldl (logged en) out)) := by
+  have hflush : ∀ (σ : State) (b : Bytes), retK σ [] "flush"
+      (exec (X en) (fuel + 1) flush_body ⟨[("p0", .bool true)], zfld b lvl out⟩) =
+        .normal { σ with fld := zfld [] lvl (logged en out b) } := by
+    intro σ b
+    have := retK_of_fin0 σ "flush" _ _ (flush_exec_matches_source en true b lvl out fuel)
+    simpa using this
+  rw [exec_succ]
+  cases hd : line.dropWhile (fun b => b != 10) with
+  | nil =>
+    have hi := indexByte_none line hd
+    simp [writeLine_body, wl, hd, hi]
+  | cons c rest =>
+    obtain ⟨hi, hsplit⟩ := indexByte_some line c rest hd
+    generalize htw : line.takeWhile (fun b => b != 10) = tw at hi hsplit
+    have hwl : wl buff line = ([], [if buff.isEmpty then tw else buff ++ tw], rest) := by
+      simp [wl, hd, htw]
+    rw [hwl]
+    subst hsplit
+    have hlen : (tw.length : Int) + 1 < 9223372036854775808 := by
+      simp only [List.length_append, List.length_cons] at hl; omega
+    have hw : wrap .int ((tw.length : Int) + 1) = ((tw.length + 1 : Nat) : Int) := by
+      rw [wrap_int_id] <;> omega
+    have hnn : ¬ ((tw.length : Int) < 0) := by omega
+    have ht : (tw ++ 10 :: rest).take tw.length = tw := List.take_left' rfl
+    have hdr : (tw ++ 10 :: rest).drop (tw.length + 1) = rest := by
+      rw [show tw ++ 10 :: rest = (tw ++ [10]) ++ rest by simp]
+      exact List.drop_left' (by simp)
+    have hc1 : (tw.length : Int) ≤ tw.length + ((rest.length : Int) + 1) := by omega
+    have hc2 : 0 ≤ (tw.length : Int) + 1 ∧ (1 : Int) ≤ (rest.length : Int) + 1 := by omega
+    have htake : List.take ((tw.length : Int) + ((rest.length : Int) + 1)).toNat (tw ++ 10 :: rest) = tw ++ 10 :: rest := by
+      apply List.take_of_length_le; simp; omega
+    cases buff with
+    | nil => simp [writeLine_body, hi, hw, hnn, ht, hdr, logged, hc1, hc2, htake]
+    | cons b0 br =>
+      have hbl : ¬ ((br.length : Int) + 1 = 0) := by omega
+      simp [writeLine_body, hi, hw, hnn, ht, hdr, logged, hflush, hc1, hc2, htake, hbl]
+
+/-- the loop `for len(bs) > 0 { bs = w.writeLine(bs) }` ≡ the model's `lines` (= `write`, `fast_path_eq`): it
+    terminates after at most `len(bs)` iterations with the unterminated tail in the buffer and the complete lines
+    logged in order -/
+theorem Write_loop_matches_source (en : Bool) (buff bs : Bytes) (lvl : Int) (out : List Val) (n : Int) (fuel : Nat)
+    (hl : (bs.length : Int) < 9223372036854775808) :
+    execS (X en) (exec (X en) (fuel + bs.length + 2)) Write_loop0
+        ⟨[("p0", .bytes bs), ("r0", .int n), ("r1", .list [])], zfld buff lvl out⟩ =
+      .normal ⟨[("p0", .bytes []), ("r0", .int n), ("r1", .list [])],
+        zfld (lines buff bs).2 lvl ((lines buff bs).1.foldl (logged en) out)⟩ := by
+  unfold Write_loop0
+  refine (loop_fold (α := Bytes × Bytes × List Val) (X en) _ _ _ 2
+    (fun a => ⟨[("p0", .bytes a.2.1), ("r0", .int n), ("r1", .list [])], zfld a.1 lvl a.2.2⟩)
+    (fun a => (a.2.1.length : Int) < 9223372036854775808)
+    (fun a => decide (a.2.1 ≠ []))
+    (fun a => ((wl a.1 a.2.1).1, (wl a.1 a.2.1).2.2, (wl a.1 a.2.1).2.1.foldl (logged en) a.2.2))
+    (fun a => ((lines a.1 a.2.1).2, [], (lines a.1 a.2.1).1.foldl (logged en) a.2.2))
+    (fun a => a.2.1.length)
+    ?_ ?_ ?_ ?_ ?_ ?_ bs.length (buff, bs, out) fuel hl (Nat.le_refl _)).trans (by simp)
+  · intro a _
+    obtain ⟨b, s, o⟩ := a
+    cases s <;> simp
+  · intro a fuel ha hc
+    obtain ⟨b, s, o⟩ := a
+    have h := retK_of_fin1 ⟨[("p0", .bytes s), ("r0", .int n), ("r1", .list [])], zfld b lvl o⟩ (.loc "p0") "writeLine" _ _ _
+      (writeLine_exec_matches_source en b s lvl o fuel ha)
+    simp [h]
+  · intro a ha hc
+    obtain ⟨b, s, o⟩ := a
+    have hs : s ≠ [] := by simpa using hc
+    have := wl_shorter b s hs
+    show ((wl b s).2.2.length : Int) < 9223372036854775808
+    have ha' : (s.length : Int) < 9223372036854775808 := ha
+    omega
+  · intro a ha hc
+    obtain ⟨b, s, o⟩ := a
+    have hs : s ≠ [] := by simpa using hc
+    exact wl_shorter b s hs
+  · intro a ha hc
+    obtain ⟨b, s, o⟩ := a
+    have hs : s = [] := by simpa using hc
+    subst hs
+    simp [lines]
+  · intro a ha hc
+    obtain ⟨b, s, o⟩ := a
+    have hs : s ≠ [] := by simpa using hc
+    simp only [lines_wl b s hs, List.foldl_append]
+
+/-- `Writer.Write(bs)` ≡ `Zio.step w (.write bs)`: a disabled level returns `(len(bs), nil)` and touches nothing;
+    otherwise every complete line is logged, the tail stays buffered, and the result is `(len(bs), nil)` — for every
+    buffer content and every chunk -/
+theorem Write_matches_source (w : W) (bs : Bytes) (lvl : Int) (out : List Bytes) (fuel : Nat)
+    (hl : (bs.length : Int) < 9223372036854775808) :
+    run (X w.enabled) (fuel + bs.length + 3) "Write" [.bytes bs] (zfld w.buff lvl (out.map .bytes)) =
+      .done [.int bs.length, .list []]
+        (zfld (step w (.write bs)).1.buff lvl ((out ++ (step w (.write bs)).2.1).map .bytes)) := by
+  refine run_of_fin (X w.enabled) _ _ Gen.TransZio.Write [.bytes bs] _ _ _ rfl rfl ?_
+  show (exec (X w.enabled) (fuel + bs.length + 3) Write_body
+    ⟨[("p0", .bytes bs), ("r0", .int 0), ("r1", .list [])], _⟩).fin = _
+  rw [exec_succ]
+  obtain ⟨buff, en⟩ := w
+  cases en
+  · simp [Write_body, step]
+  · have hloop := Write_loop_matches_source true buff bs lvl (out.map .bytes) bs.length fuel hl
+    have hlog : ∀ (ms : List Bytes) (o : List Bytes),
+        ms.foldl (logged true) (o.map Val.bytes) = (o ++ ms).map Val.bytes := by
+      intro ms
+      induction ms with
+      | nil => intro o; simp
+      | cons m r ih => intro o; simp only [List.foldl_cons, logged, if_true]
+                       rw [show o.map Val.bytes ++ [Val.bytes m] = (o ++ [m]).map Val.bytes by simp, ih]; simp
+    simp [Write_body, step, hloop, hlog, fast_path_eq]
+
+/-- `Writer.Sync()` (and `Close`) ≡ `Zio.step w .sync`: a non-empty buffer is logged (if the level is enabled) and
+    the buffer is reset; no empty message is produced -/
+theorem Sync_matches_source (w : W) (lvl : Int) (out : List Bytes) (fuel : Nat) :
+    run (X w.enabled) (fuel + 2) "Sync" [] (zfld w.buff lvl (out.map .bytes)) =
+      .done [.list []] (zfld (step w .sync).1.buff lvl ((out ++ (step w .sync).2.1).map .bytes)) := by
+  refine run_of_fin (X w.enabled) _ _ Gen.TransZio.Sync [] _ _ _ rfl rfl ?_
+  show (exec (X w.enabled) (fuel + 2) Sync_body ⟨[], _⟩).fin = _
+  rw [exec_succ]
+  obtain ⟨buff, en⟩ := w
+  have h := fun σ => retK_of_fin0 σ "flush" _ _ (flush_exec_matches_source en false buff lvl (out.map .bytes) fuel)
+  cases en <;> cases buff <;> simp [Sync_body, h, step, sync, logged]
 
 end ZapVerif.C17
